@@ -58,6 +58,18 @@ pub struct Conn {
     pub scope: u32,
 }
 
+/// One task that calls `accept()` on the (Rc-shared) first listener.
+#[derive(Clone, Debug, Serialize, Deserialize)]
+pub struct Acceptor {
+    /// first `accept()` call this many steps after `accept_step`
+    pub start_off: u32,
+    /// what it does once `accept()` has returned a stream (which it hands to
+    /// a reader task that holds it): `None` = busy with that connection for
+    /// good, never calls accept again; `Some(0)` = calls accept again at once
+    /// (an accept loop); `Some(k)` = busy for k steps, then calls accept again
+    pub again: Option<u32>,
+}
+
 #[derive(Clone, Debug, Serialize, Deserialize)]
 pub struct Scenario {
     pub tick_ms: u32,
@@ -77,6 +89,13 @@ pub struct Scenario {
     /// any sequence: an entry (t, k) is applied from the Sim handle after step t
     /// and before step t + 1, entries with the same t in list order
     pub faults: Vec<(u32, u8)>,
+    /// The tasks accepting on the first listener (shared through an Rc), each
+    /// parked in `accept()` concurrently with the others.  Empty = the
+    /// classic single accept loop started at `accept_step`.  Non-empty: the
+    /// listener is dropped at the end of the run (after the observation
+    /// window), so that requests nobody was left to accept are refused.
+    #[serde(default)]
+    pub acceptors: Vec<Acceptor>,
     /// set for the probe scenario of a known finding: avoid rules are off and
     /// the failure signature gets the prefix `probe:<name>:`
     #[serde(default)]
@@ -113,6 +132,8 @@ struct Acc {
     reported_peer: SocketAddr,
     at_step: u64,
     listener_gen: u32,
+    /// which acceptor task returned it
+    by: usize,
 }
 
 #[derive(Default)]
@@ -124,6 +145,12 @@ struct Shared {
     release: Cell<bool>,
     counts: RefCell<BTreeMap<String, usize>>,
     started: RefCell<BTreeMap<usize, u64>>,
+    /// every `accept()` call on a listener: (listener generation, acceptor,
+    /// step of the call, step of its return if it returned)
+    spans: RefCell<Vec<(u32, usize, u64, Option<u64>)>>,
+    /// step in which the first listener was dropped (scenario drop step, or
+    /// the end-of-run drop of a scenario with an acceptor pool)
+    gen0_dropped: Cell<Option<u64>>,
 }
 
 const PORT: u16 = 9000;
@@ -136,15 +163,23 @@ async fn wait_step(sh: &Shared, k: u64) {
 
 type HeldStreams = Rc<RefCell<Vec<TcpStream>>>;
 
-async fn accept_loop(lis: Rc<TcpListener>, gen: u32, sh: Rc<Shared>, held: HeldStreams) {
+/// One accepting task.  `again`: see [`Acceptor::again`] (`Some(0)` = the
+/// classic accept loop).
+async fn accept_loop(lis: Rc<TcpListener>, gen: u32, who: usize, again: Option<u32>, sh: Rc<Shared>, held: HeldStreams) {
     loop {
+        let span = {
+            let mut sp = sh.spans.borrow_mut();
+            sp.push((gen, who, sh.step.get(), None));
+            sp.len() - 1
+        };
         match lis.accept().await {
             Ok((mut s, reported_peer)) => {
                 let at = sh.step.get();
+                sh.spans.borrow_mut()[span].3 = Some(at);
                 let (local, peer) = (s.local_addr().unwrap(), s.peer_addr().unwrap());
                 let idx = {
                     let mut a = sh.accepted.borrow_mut();
-                    a.push(Acc { nonce: None, local, peer, reported_peer, at_step: at, listener_gen: gen });
+                    a.push(Acc { nonce: None, local, peer, reported_peer, at_step: at, listener_gen: gen, by: who });
                     a.len() - 1
                 };
                 let (sh2, held2) = (sh.clone(), held.clone());
@@ -163,6 +198,11 @@ async fn accept_loop(lis: Rc<TcpListener>, gen: u32, sh: Rc<Shared>, held: HeldS
                         held2.borrow_mut().push(s);
                     }
                 });
+                match again {
+                    None => break,
+                    Some(0) => {}
+                    Some(w) => wait_step(&sh, at + w as u64).await,
+                }
             }
             Err(e) => {
                 sh.errors.borrow_mut().push(format!("accept: {e}"));
@@ -179,9 +219,21 @@ async fn accept_loop(lis: Rc<TcpListener>, gen: u32, sh: Rc<Shared>, held: HeldS
 enum Act {
     Conn(usize, Conn),
     Bind,
-    StartAccept,
+    StartAccept(usize, Option<u32>),
     DropListener,
     Rebind,
+}
+
+/// The accepting tasks of the first listener that get to start: (index,
+/// step of the first accept() call, behaviour after a return).  A task whose
+/// start is not before the listener drop never starts.
+fn acceptor_plan(sc: &Scenario) -> Vec<(usize, u32, Option<u32>)> {
+    let acc_step = sc.accept_step.max(sc.bind_step);
+    let alive = |s: u32| sc.drop_step.map(|d| s < d).unwrap_or(true);
+    if sc.acceptors.is_empty() {
+        return if alive(acc_step) { vec![(0, acc_step, Some(0))] } else { vec![] };
+    }
+    sc.acceptors.iter().enumerate().map(|(k, a)| (k, acc_step + a.start_off, a.again)).filter(|x| alive(x.1)).collect()
 }
 
 async fn server(sh: Rc<Shared>, sc: Scenario, own_conns: Vec<(usize, Conn)>) -> turmoil::Result {
@@ -203,11 +255,10 @@ async fn server(sh: Rc<Shared>, sc: Scenario, own_conns: Vec<(usize, Conn)>) -> 
             _ => agenda.push((c.step, 2, i, Act::Conn(i, c))),
         }
     }
-    let acc_step = sc.accept_step.max(sc.bind_step);
-    let accepts_first = sc.drop_step.map(|d| acc_step < d).unwrap_or(true);
     agenda.push((sc.bind_step, 1, 0, Act::Bind));
-    if accepts_first {
-        agenda.push((acc_step, 1, 1, Act::StartAccept));
+    let pool = !sc.acceptors.is_empty();
+    for (k, start, again) in acceptor_plan(&sc) {
+        agenda.push((start, 1, 4 + k, Act::StartAccept(k, again)));
     }
     if let Some(d) = sc.drop_step {
         agenda.push((d, 1, 2, Act::DropListener));
@@ -217,7 +268,7 @@ async fn server(sh: Rc<Shared>, sc: Scenario, own_conns: Vec<(usize, Conn)>) -> 
     }
     agenda.sort_by_key(|x| (x.0, x.1, x.2));
     let mut lis: Option<Rc<TcpListener>> = None;
-    let mut task: Option<tokio::task::JoinHandle<()>> = None;
+    let mut tasks: Vec<tokio::task::JoinHandle<()>> = Vec::new();
     for (step, _, _, act) in agenda {
         wait_step(&sh, step as u64).await;
         match act {
@@ -236,21 +287,22 @@ async fn server(sh: Rc<Shared>, sc: Scenario, own_conns: Vec<(usize, Conn)>) -> 
             Act::Bind => {
                 lis = Some(Rc::new(TcpListener::bind((any, PORT)).await?));
             }
-            Act::StartAccept => {
+            Act::StartAccept(k, again) => {
                 if let Some(l) = &lis {
-                    task = Some(tokio::task::spawn_local(accept_loop(l.clone(), 0, sh.clone(), held.clone())));
+                    tasks.push(tokio::task::spawn_local(accept_loop(l.clone(), 0, k, again, sh.clone(), held.clone())));
                 }
             }
             Act::DropListener => {
-                if let Some(task) = task.take() {
+                for task in tasks.drain(..) {
                     task.abort();
                     let _ = task.await;
                 }
+                sh.gen0_dropped.set(Some(sh.step.get()));
                 drop(lis.take());
             }
             Act::Rebind => match TcpListener::bind((any, PORT)).await {
                 Ok(l2) => {
-                    tokio::task::spawn_local(accept_loop(Rc::new(l2), 1, sh.clone(), held.clone()));
+                    tokio::task::spawn_local(accept_loop(Rc::new(l2), 1, 0, Some(0), sh.clone(), held.clone()));
                 }
                 Err(e) => sh.errors.borrow_mut().push(format!("re-bind after drop failed: {:?}", e.kind())),
             },
@@ -260,6 +312,16 @@ async fn server(sh: Rc<Shared>, sc: Scenario, own_conns: Vec<(usize, Conn)>) -> 
         tokio::time::sleep(Duration::from_millis(1)).await;
     }
     held.borrow_mut().clear();
+    // an acceptor pool may leave requests queued that nobody is left to
+    // accept: dropping the listener refuses them
+    if pool && lis.is_some() {
+        for task in tasks.drain(..) {
+            task.abort();
+            let _ = task.await;
+        }
+        sh.gen0_dropped.set(Some(sh.step.get()));
+        drop(lis.take());
+    }
     // report stream counts a few ticks later
     tokio::time::sleep(Duration::from_millis(sc.lat_max as u64 + 3 * sc.tick_ms as u64 + 2)).await;
     for h in ["s", "c0", "c1"] {
@@ -498,6 +560,11 @@ fn run_inner(sc0: &Scenario) -> Outcome {
         (Some(d), Some(r)) => Some(r.max(d + 1)),
         _ => None,
     };
+    sc.acceptors.truncate(3);
+    for a in sc.acceptors.iter_mut() {
+        a.start_off %= 8;
+        a.again = a.again.map(|w| w % 8);
+    }
     let sc = &sc;
     let tick = sc.tick_ms.max(1) as u64;
     let lat_min = sc.lat_min.min(sc.lat_max) as u64;
@@ -571,6 +638,9 @@ fn run_inner(sc0: &Scenario) -> Outcome {
         .chain(sc.faults.iter().map(|f| f.0))
         .max()
         .unwrap_or(0) as u64;
+    // a task that pauses between its accept() calls works the queue off slowly
+    let drain = sc.acceptors.iter().filter_map(|a| a.again).max().map(|w| (w as u64 + 1) * (conns.len() as u64 + 1) + sc.acceptors.iter().map(|a| a.start_off as u64).max().unwrap_or(0)).unwrap_or(0);
+    let last_event = last_event + drain;
     let settle = lat_max.div_ceil(tick) + 4;
     // the link-control history exactly as applied (time order, list order within one instant)
     let mut ops: Vec<(u64, u8)> = sc.faults.iter().map(|(t, k)| (*t as u64, k % 4)).collect();
@@ -670,6 +740,8 @@ fn run_inner(sc0: &Scenario) -> Outcome {
     let cancelled: Vec<usize> = conns.iter().filter(|(i, _)| results.get(i).map(|r| r.kind == "TimedOut").unwrap_or(false)).map(|(i, _)| *i).collect();
     let mut paired_phantoms = 0usize;
     let mut paired_by_addr: BTreeSet<usize> = BTreeSet::new();
+    // successful connector -> index of its accepted stream
+    let mut pair_of: BTreeMap<usize, usize> = BTreeMap::new();
     for (i, c) in &conns {
         let Some(r) = results.get(i) else {
             // never returned
@@ -697,6 +769,7 @@ fn run_inner(sc0: &Scenario) -> Outcome {
                 paired_phantoms += 1;
                 paired_by_addr.insert(k);
             }
+            pair_of.insert(*i, k);
             let a = &accepted[k];
             // scope id / flowinfo are not part of the mirrored (ip, port) pair
             if Some(norm(a.peer)) != r.local.map(norm) {
@@ -802,6 +875,57 @@ fn run_inner(sc0: &Scenario) -> Outcome {
         }
     }
 
+    // ---------------- no request waits in the queue while a task is parked
+    // in accept().  accept() takes the oldest live request or parks; a
+    // delivered request wakes a parked acceptor in the same step.  So a
+    // request that has certainly been delivered (by step j) and is neither
+    // accepted, refused nor given up on through the end of step X cannot
+    // coexist with an accept() call that was made by step p and has not
+    // returned through the end of step X, for X = max(j, p) + 1 (one step of
+    // slack).  Holds for any number of tasks sharing the listener, whatever
+    // each does between its accept() calls.
+    {
+        let spans = sh.spans.borrow();
+        let end_of_gen0 = sh.gen0_dropped.get().unwrap_or(step_no);
+        for (i, c) in &conns {
+            if !matches!(c.target, Target::Server | Target::Loopback) {
+                continue;
+            }
+            let (Some(a), Some(r)) = (started.get(i), results.get(i)) else { continue };
+            // latest step in which the request reaches the server
+            let j_hi = if c.from == 0 {
+                *a + 1
+            } else {
+                match fates.get(i).map(|f| f.0) {
+                    Some(Fate::Delivered { hi, .. }) => hi,
+                    _ => continue,
+                }
+            };
+            // first step in which the request is certainly no longer waiting
+            let t_end = match pair_of.get(i) {
+                Some(k) => accepted[*k].at_step,
+                None => r.at_step,
+            };
+            for &(gen, who, p, q) in spans.iter() {
+                let q_eff = q.unwrap_or(if gen == 0 { end_of_gen0 } else { step_no });
+                let m = j_hi.max(p);
+                if t_end.min(q_eff) >= m + 2 {
+                    out.fail(
+                        "connect-left-waiting-while-a-task-is-parked-in-accept",
+                        format!(
+                            "connector {i} {c:?}: connect called in step {a}, request delivered by step {j_hi}, still waiting through step {} ({}); acceptor {who} of listener #{gen} called accept() in step {p} and was parked in it until step {q:?} (listener dropped / run ended at step {q_eff}); acceptors {:?}; all accept() calls (listener, acceptor, called, returned) {:?}; accepted {accepted:?}",
+                            t_end.min(q_eff) - 1,
+                            if r.ok { format!("accepted in step {t_end}") } else { format!("{} in step {}", r.kind, r.at_step) },
+                            sc.acceptors,
+                            *spans
+                        ),
+                    );
+                    return out;
+                }
+            }
+        }
+    }
+
     if phantom > cancelled.len() + paired_phantoms {
         out.fail(
             "accepted-stream-without-a-successful-connector",
@@ -819,7 +943,25 @@ fn run_inner(sc0: &Scenario) -> Outcome {
         let b_ = sc.bind_step as u64;
         let d_ = sc.drop_step.map(|d| d as u64);
         // a listener dropped before its accept step never accepts
-        let s_ = if d_.map(|d| (sc.accept_step.max(sc.bind_step) as u64) < d).unwrap_or(true) { sc.accept_step.max(sc.bind_step) as u64 } else { u64::MAX / 2 };
+        // With one accept loop a queued request is taken in step max(j, s).
+        // With a pool of accepting tasks it is taken no earlier than
+        // max(j, s_lo), s_lo = the first accept() call of any task, and no
+        // later than max(j, s_) where s_ = the start of the first task that
+        // loops without a pause (it drains the queue), or the start of the
+        // last task when there are at least as many tasks as requests that
+        // can ever reach the listener (every task takes at least one live
+        // request); otherwise it may wait until the listener goes away.
+        const NEVER: u64 = u64::MAX / 2;
+        let plan = acceptor_plan(sc);
+        let n_req = conns.iter().filter(|(_, c)| matches!(c.target, Target::Server | Target::Loopback)).count();
+        let s_lo = plan.iter().map(|x| x.1 as u64).min().unwrap_or(NEVER);
+        let s_ = plan
+            .iter()
+            .filter(|x| x.2 == Some(0))
+            .map(|x| x.1 as u64)
+            .chain(if !plan.is_empty() && n_req <= plan.len() { plan.iter().map(|x| x.1 as u64).max() } else { None })
+            .min()
+            .unwrap_or(NEVER);
         let r_ = sc.rebind_step.map(|r| r as u64);
         let mut expected_order: Vec<(u64, usize)> = Vec::new();
         let mut local_checked = false;
@@ -876,11 +1018,12 @@ fn run_inner(sc0: &Scenario) -> Outcome {
             let mut exp = if !addr_ok {
                 Exp::Refused
             } else if within_first {
-                // queued; accepted at max(j, s) unless the listener is dropped first
+                // queued; accepted in max(j, s_lo) ..= max(j, s_) unless the listener is dropped first
                 let acc_at = j.max(s_);
                 match d_ {
-                    Some(d) if acc_at > d => Exp::Refused,
+                    Some(d) if j.max(s_lo) > d => Exp::Refused,
                     Some(d) if acc_at + 1 >= d => Exp::Either,
+                    None if acc_at >= NEVER => Exp::Either,
                     _ => Exp::Accepted,
                 }
             } else if within_second {
@@ -999,6 +1142,65 @@ fn run_inner(sc0: &Scenario) -> Outcome {
         return out;
     }
 
+    if !sc.acceptors.is_empty() {
+        let spans = sh.spans.borrow();
+        let end_of_gen0 = sh.gen0_dropped.get().unwrap_or(step_no);
+        out.label(format!("pool:{}-acceptors", sc.acceptors.len()));
+        for a in &sc.acceptors {
+            out.label(match a.again {
+                None => "pool:has-accept-once-then-busy",
+                Some(0) => "pool:has-accept-loop",
+                Some(_) => "pool:has-accept-pause-accept",
+            });
+        }
+        // requests reaching the server in one and the same step while
+        // several tasks are parked in accept()
+        let mut arrivals: BTreeMap<u64, (usize, BTreeSet<usize>)> = BTreeMap::new();
+        for (i, c) in &conns {
+            if !matches!(c.target, Target::Server | Target::Loopback) {
+                continue;
+            }
+            let j = if c.from == 0 {
+                started.get(i).map(|a| a + 1)
+            } else {
+                match fates.get(i).map(|f| f.0) {
+                    Some(Fate::Delivered { lo, hi }) if lo == hi => Some(lo),
+                    _ => None,
+                }
+            };
+            if let Some(j) = j {
+                let e = arrivals.entry(j).or_default();
+                e.0 += 1;
+                e.1.insert(c.from);
+            }
+        }
+        let (mut burst, mut burst_multi_host, mut more, mut fewer) = (false, false, false, false);
+        for (j, (n, hosts)) in &arrivals {
+            let parked = spans.iter().filter(|x| x.0 == 0 && x.2 < *j && x.3.unwrap_or(end_of_gen0) >= *j).count();
+            if *n >= 2 && parked >= 2 {
+                burst = true;
+                burst_multi_host |= hosts.len() >= 2;
+                more |= *n > parked;
+                fewer |= *n < parked;
+            }
+        }
+        if burst {
+            out.label("pool:same-step-arrivals-onto-several-parked-acceptors");
+            out.label(if burst_multi_host { "pool:same-step-arrivals:from-several-hosts" } else { "pool:same-step-arrivals:from-one-host" });
+        }
+        if more {
+            out.label("pool:same-step-arrivals:more-than-parked-acceptors");
+        }
+        if fewer {
+            out.label("pool:same-step-arrivals:fewer-than-parked-acceptors");
+        }
+        if sh.gen0_dropped.get().is_some() && sc.drop_step.is_none() && results.values().any(|r| r.kind == "ConnectionRefused" && Some(r.at_step) >= sh.gen0_dropped.get()) {
+            out.label("pool:request-outlived-every-acceptor");
+        }
+        if accepted.iter().filter(|a| a.listener_gen == 0).map(|a| a.by).collect::<BTreeSet<_>>().len() >= 2 {
+            out.label("pool:streams-accepted-by-several-tasks");
+        }
+    }
     if sc.drop_step.is_some() {
         out.label("listener-drop");
     }
@@ -1086,14 +1288,33 @@ pub fn strategy() -> BoxedStrategy<Scenario> {
             (true, v)
         }),
     ];
+    // who accepts on the first listener: the classic single loop, or 1-3
+    // tasks sharing it, each accepting once / again after a pause / in a
+    // loop; then often a burst of 2-5 connects from one or several hosts
+    let acceptor = (prop_oneof![3 => Just(0u32), 1 => 0u32..4], prop_oneof![5 => Just(None), 2 => Just(Some(0u32)), 3 => (1u32..8).prop_map(Some)]).prop_map(|(start_off, again)| Acceptor { start_off, again });
+    let burst_from = prop_oneof![
+        2 => proptest::collection::vec(Just(1usize), 2..=5),
+        2 => proptest::collection::vec(1usize..3, 2..=5),
+        1 => proptest::collection::vec(0usize..3, 2..=5),
+    ];
+    let pool = prop_oneof![
+        5 => Just((Vec::<Acceptor>::new(), true, None)),
+        4 => (
+            proptest::collection::vec(acceptor, 1..=3),
+            any::<bool>(),
+            prop_oneof![1 => Just(None), 4 => (0u32..12, prop_oneof![4 => Just(false), 1 => Just(true)], burst_from).prop_map(Some)],
+        ),
+    ];
     (
         (1u32..=3, lat, any::<u64>(), any::<bool>(), prop_oneof![4 => Just(false), 1 => Just(true)], prop_oneof![4 => Just(false), 1 => Just(true)]),
         (1u32..12, 0u32..14, prop_oneof![1 => Just(None), 1 => (4u32..30).prop_map(Some)], prop_oneof![1 => Just(None), 1 => (1u32..12).prop_map(Some)]),
         proptest::collection::vec(conn_strategy(), 1..8),
         faults,
+        pool,
     )
-        .prop_map(|((tick_ms, (lat_min, lat_max), seed, v6, random_order, listen_localhost), (bind_step, acc_off, drop_off, rebind_off), conns, (anchored, fl))| {
+        .prop_map(|((tick_ms, (lat_min, lat_max), seed, v6, random_order, listen_localhost), (bind_step, acc_off, drop_off, rebind_off), conns, (anchored, fl), (acceptors, keep_drop, burst))| {
             let accept_step = bind_step + acc_off;
+            let drop_off = if acceptors.is_empty() || keep_drop { drop_off } else { None };
             let drop_step = drop_off.map(|d| bind_step + d);
             let rebind_step = match (drop_step, rebind_off) {
                 (Some(d), Some(r)) => Some(d + r),
@@ -1115,6 +1336,19 @@ pub fn strategy() -> BoxedStrategy<Scenario> {
                     c
                 })
                 .collect();
+            // a burst of connects called in one step (or in consecutive
+            // steps) by connectors on the given hosts
+            if let (false, Some((after, spread, froms))) = (acceptors.is_empty(), burst) {
+                let at = accept_step + after;
+                for (n, from) in froms.into_iter().enumerate() {
+                    let c = Conn { from, step: at + if spread { n as u32 } else { 0 }, target: if from == 0 && n % 2 == 1 { Target::Loopback } else { Target::Server }, timeout_steps: None, order: 0, scope: 0 };
+                    if n < conns.len() {
+                        conns[n] = c;
+                    } else if conns.len() < 7 {
+                        conns.push(c);
+                    }
+                }
+            }
             let faults: Vec<(u32, u8)> = if anchored {
                 conns[0].from = 1;
                 if conns[0].target != Target::DeadPort {
@@ -1127,7 +1361,7 @@ pub fn strategy() -> BoxedStrategy<Scenario> {
             } else {
                 fl.into_iter().map(|(t, k)| (t as u32, k)).collect()
             };
-            Scenario { tick_ms, lat_min, lat_max, seed, v6, random_order, listen_localhost, bind_step, accept_step, drop_step, rebind_step, conns, faults, probe: None }
+            Scenario { tick_ms, lat_min, lat_max, seed, v6, random_order, listen_localhost, bind_step, accept_step, drop_step, rebind_step, conns, faults, acceptors, probe: None }
         })
         .boxed()
 }
@@ -1147,6 +1381,7 @@ fn base_scenario() -> Scenario {
         rebind_step: None,
         conns: vec![],
         faults: vec![],
+        acceptors: vec![],
         probe: None,
     }
 }
@@ -1253,6 +1488,50 @@ fn bind_order_space() -> Vec<Scenario> {
     v
 }
 
+/// Several tasks sharing one listener: every pool of 1..=3 accepting tasks
+/// (each accepting once and staying busy / again after a pause / in a loop),
+/// 1..=4 connects called in one step or in consecutive steps, from one remote
+/// host, from two remote hosts alternately (equal latency: their requests
+/// arrive in the same step) or from the listener's own host, with the tasks
+/// parked in accept() before the requests arrive or calling it afterwards.
+fn acceptor_pool_space() -> Vec<Scenario> {
+    let modes: [Option<u32>; 3] = [None, Some(0), Some(3)];
+    let mut v = Vec::new();
+    for n_acc in 1..=3usize {
+        for code in 0..3usize.pow(n_acc as u32) {
+            let acceptors: Vec<Acceptor> = (0..n_acc).map(|k| Acceptor { start_off: 0, again: modes[(code / 3usize.pow(k as u32)) % 3] }).collect();
+            for n_syn in 1..=4usize {
+                for pattern in 0..3usize {
+                    for spread in [false, true] {
+                        for parked_first in [true, false] {
+                            let mut sc = base_scenario();
+                            sc.bind_step = 2;
+                            sc.accept_step = if parked_first { 2 } else { 16 };
+                            sc.acceptors = acceptors.clone();
+                            sc.conns = (0..n_syn)
+                                .map(|n| Conn {
+                                    from: match pattern {
+                                        0 => 1,
+                                        1 => 1 + n % 2,
+                                        _ => 0,
+                                    },
+                                    step: 8 + if spread { n as u32 } else { 0 },
+                                    target: if pattern == 2 && n % 2 == 1 { Target::Loopback } else { Target::Server },
+                                    timeout_steps: None,
+                                    order: 0,
+                                    scope: 0,
+                                })
+                                .collect();
+                            v.push(sc);
+                        }
+                    }
+                }
+            }
+        }
+    }
+    v
+}
+
 /// Probe for F-C12-1: one connector whose destination carries a scope id.
 pub fn probe_scope_id() -> Scenario {
     let mut sc = base_scenario();
@@ -1293,6 +1572,11 @@ pub fn fuzz_sanitize(sc: &mut Scenario) -> bool {
         f.1 %= 4;
     }
     sc.faults.sort_by_key(|f| f.0);
+    sc.acceptors.truncate(3);
+    for a in sc.acceptors.iter_mut() {
+        a.start_off %= 4;
+        a.again = a.again.map(|w| w % 8);
+    }
     sc.probe = None;
     !sc.conns.is_empty()
 }
@@ -1312,12 +1596,19 @@ fn check(tier: Tier, seed: u64) -> i32 {
         bo.len()
     );
     ctx.exhaustive("bind-connect-order", &bo_desc, Box::new(bo.into_iter()), &run);
+    let ap = acceptor_pool_space();
+    let ap_desc = format!(
+        "{} scenarios: every pool of 1..=3 tasks sharing one listener through an Rc (each accepting once and then staying busy with its stream / calling accept again after 3 steps / looping) x 1..=4 connects called in one step or in consecutive steps x connectors all on c0 / alternately on c0 and c1 (equal latency) / on the listener's own host (own address and 127.0.0.1) x tasks parked in accept() before the requests arrive or calling accept() only afterwards; fixed latency 3 ticks; the listener is dropped at the end of the run",
+        ap.len()
+    );
+    ctx.exhaustive("acceptor-pools", &ap_desc, Box::new(ap.into_iter()), &run);
     ctx.random("pairing", tier.pick(24_000, 300_000), &|| strategy(), &run);
     ctx.finish(
-        "random scenarios: a server timeline (bind, start accepting, optional listener drop and re-bind) and 1-7 connectors on the server's own host (own address, 127.0.0.1/::1; free-running, or issued by the server task itself just before / just after its own bind / drop / re-bind of the same step) and on two remote hosts, started at generated steps, some giving up after a generated number of steps, some aimed at a dead port or an address nobody owns; wildcard or localhost bind, v4/v6 (v6 destinations optionally as SocketAddrV6 with a scope id unless F-C12-1 is recorded as known), fixed or ranged latency, a history of up to 4 hold / release / partition / repair calls in any order around the first connector's request (or a hold/release or partition/repair pair anywhere), random host order; plus two bounded-exhaustive families (link histories around one pending connect; same-host connect against bind / re-bind / drop). Every successful connector writes its index, every accepted stream reads it. Oracle: nonce bijection (each success accepted exactly once, accepted streams without a connector only for connectors that gave up), mirrored addresses, ConnectionRefused for dead ports / unknown addresses / localhost listeners, no connect left pending, stream counts back to 0 after all streams were dropped; a model of the link history decides for every request from c0 whether it is dropped by a partition (sent into one, or in flight / parked by a hold when it is set: the connect must be refused, promptly, never succeed, never stay pending), parked until a release, or delivered in a known step range (no Ok and no refusal before that), leaving open what the documentation leaves open; an exact step-level model of the listener timeline decides accept-vs-refuse, refusal promptness and accept order = arrival order for remote requests under fixed latency >= 1 ms and fixed host order, and for same-host requests always (delivered in the step after the connect call: the listener state at that step counts, not the state when connect was called). Non-trivial = >= 2 connectors pending at once and >= 1 refusal or give-up. Distinct by scenario hash.",
+        "random scenarios: a server timeline (bind, start accepting, optional listener drop and re-bind; accepting is done by one accept loop or, in 4 of 9 scenarios, by a pool of 1-3 tasks that share the listener through an Rc and are parked in accept() concurrently, each started 0-3 steps after the accept step and, after a stream was returned to it, either staying busy with it for good, calling accept again after 1-7 steps, or looping at once; a pool scenario usually gets a burst of 2-5 connects called in one step, or in consecutive steps, by connectors on one remote host, on both remote hosts or on any host, 0-11 steps after the accept step, so that several requests reach the listener in the same step while several, fewer or more tasks are parked; the listener of a pool scenario is dropped at the end of the run so that requests nobody is left to accept are refused) and 1-7 connectors on the server's own host (own address, 127.0.0.1/::1; free-running, or issued by the server task itself just before / just after its own bind / drop / re-bind of the same step) and on two remote hosts, started at generated steps, some giving up after a generated number of steps, some aimed at a dead port or an address nobody owns; wildcard or localhost bind, v4/v6 (v6 destinations optionally as SocketAddrV6 with a scope id unless F-C12-1 is recorded as known), fixed or ranged latency, a history of up to 4 hold / release / partition / repair calls in any order around the first connector's request (or a hold/release or partition/repair pair anywhere), random host order; plus three bounded-exhaustive families (link histories around one pending connect; same-host connect against bind / re-bind / drop; pools of accepting tasks against bursts of connects). Every successful connector writes its index, every accepted stream reads it. Oracle: nonce bijection (each success accepted exactly once, accepted streams without a connector only for connectors that gave up), mirrored addresses, ConnectionRefused for dead ports / unknown addresses / localhost listeners, no connect left pending, stream counts back to 0 after all streams were dropped; a model of the link history decides for every request from c0 whether it is dropped by a partition (sent into one, or in flight / parked by a hold when it is set: the connect must be refused, promptly, never succeed, never stay pending), parked until a release, or delivered in a known step range (no Ok and no refusal before that), leaving open what the documentation leaves open; an exact step-level model of the listener timeline decides accept-vs-refuse, refusal promptness and accept order = arrival order for remote requests under fixed latency >= 1 ms and fixed host order, and for same-host requests always (delivered in the step after the connect call: the listener state at that step counts, not the state when connect was called); with a pool of accepting tasks the model bounds the accept step of a queued request between the first accept() call of any task and the start of the first looping task (or of the last task when there are at least as many tasks as requests), and admits a request waiting until the listener goes away otherwise; for every accept() call of every task (called in step p, returned in step q or never) and every request certainly delivered by step j: the request is not still waiting (neither accepted, refused nor given up on) after step max(j, p) + 1 while that call has not returned - no connect is left waiting in the queue while a task is parked in accept(). Non-trivial = >= 2 connectors pending at once and >= 1 refusal or give-up. Distinct by scenario hash.",
         &[
             "pending requests stay far below tcp_capacity (64)",
             "events that fall in the very step of a bind / drop / re-bind (free-running same-host connectors: within one step of it), or within 2 steps of a give-up, are admitted either way (documented race)",
+            "a request that reaches a bound listener while every accepting task is busy (not inside accept()) may wait for as long as that lasts: the property text bounds the wait only while somebody is accepting; such requests are refused by the end-of-run listener drop",
             "accept order is only asserted for remote connectors whose SYNs are delivered at least 2 steps apart, under fixed latency",
             "link conditions the rustdoc leaves open are not asserted: whether a hold survives partition / repair, whether a partition survives hold / release, whether repair lets parked messages go, hold / partition at the very instant of a release or while the request may already have been delivered",
             "only two-way partition / repair (the one-way variants are documented as unsupported together with hold)",
